@@ -19,15 +19,14 @@
 -/
 import GunYu.Model.Sender
 import GunYu.Model.Target
+import GunYu.Gen.FilterConsts
 
 namespace GunYu.Drive.Sender
 open GunYu GunYu.Sender GunYu.Target
 
-def noRouteCmds : List String :=
-  ["cluster","asking","readonly","readwrite","auth","client","quit","reset","echo",
-   "command","flushall","flushdb","latency","module","psync","replconf","save","shutdown","slaveof",
-   "slowlog","swapdb","sync","bgsave","bgrewriteaof","opinfo","lastsave","monitor","role","debug",
-   "restore-asking","migrate","asking","wait","pfselftest","pfdebug"]
+/-- `filter.NoRouteCmds`, regenerated from pkg/filter/filter.go on every run
+    (the Go oracle of the harness keeps an independent hand-written copy) -/
+def noRouteCmds : List Bytes := Gen.noRouteCmds.map lower
 
 def reservedPrefixes : List Bytes := [str "redis-gunyu-checkpoint", str "/redis-gunyu"]
 
@@ -129,7 +128,7 @@ def handle : List String → Option (List String)
   | "send" :: toks =>
     let tag := "#" ++ kv toks "tag"
     let f : F := { dbs := (splitList (kv toks "fdb") ",").map parseIntS,
-                   cmds := (hexList (kv toks "fcmd")) ++ noRouteCmds.map str,
+                   cmds := (hexList (kv toks "fcmd")) ++ noRouteCmds,
                    black := reservedPrefixes ++ hexList (kv toks "fpre"),
                    white := hexList (kv toks "fwl") }
     let pc : PCfg := {
